@@ -747,10 +747,11 @@ def check_buffer_resets(run, f, rule='R9.reset'):
             if not whole:
                 continue          # consumed after the loop: an accumulating buffer
             rebuilt = [st for st, ctx in inside if isinstance(st, ast.Assign) and any(isinstance(t, ast.Name) and t.id == v for t in st.targets)]
-            last_use = max(w.lineno for w in whole)
+            pos = lambda x_: (x_.lineno, x_.col_offset)     # order in the text (statements read back from a helper share a line)
+            last_use = max(pos(w) for w in whole)
             allst = [st for st, ctx in inside if isinstance(st, ast.Assign) and isinstance(st.targets[0], ast.Subscript)
                      and isinstance(st.targets[0].value, ast.Name) and st.targets[0].value.id == v]
-            cleared = [st for st in allst if st.lineno > last_use or st not in sts]
+            cleared = [st for st in allst if pos(st) > last_use or st not in sts]
             sts = [st for st in sts if st not in cleared]
             if not sts:
                 continue
@@ -758,12 +759,12 @@ def check_buffer_resets(run, f, rule='R9.reset'):
             if cleared and not rebuilt:
                 # the same slot is written back to a constant after the last whole use: cleared by hand
                 idx = {norm(s2.targets[0].slice) for s2 in sts}
-                if all(norm(c.targets[0].slice) in idx and isinstance(c.value, ast.Constant) and c.lineno > last_use for c in cleared):
+                if all(norm(c.targets[0].slice) in idx and isinstance(c.value, ast.Constant) and pos(c) > last_use for c in cleared):
                     run.ok(rule, f, sts[0], 'buffer `%s` is cleared at the same position after its use' % v)
                 else:
                     run.undecided(rule, f, sts[0], 'buffer `%s` is written at several places inside the loop; whether it is cleared is not decided' % v)
                 continue
-            run.check(bool(rebuilt) and min(r.lineno for r in rebuilt) < min(s2.lineno for s2 in sts), rule, f, sts[0],
+            run.check(bool(rebuilt) and min(pos(r) for r in rebuilt) < min(pos(s2) for s2 in sts), rule, f, sts[0],
                       'the buffer `%s` is filled at a position that depends on the loop variable and consumed as a whole inside the loop (%s), '
                       'but it is created before the loop and never cleared: the entry written for one item is still set for the next'
                       % (v, norm(whole[0])[:80]))
